@@ -577,6 +577,22 @@ pub fn run_cat(c: &mut Ctx, count: usize) {
                         c.knob("cat:compose-mismatch");
                         gen_lf(c, false, true)
                     }
+                    1 => {
+                        // near miss: the right type except at ONE boundary position (preferably a
+                        // position whose node of f already occurred earlier on f's target boundary),
+                        // same arity: a fresh node of g with a different label is put there
+                        c.knob("cat:compose-one-label-differs");
+                        let ty = f.ty().1;
+                        let p_ = c.rng.chance(1, 2);
+                        let mut g = gen_lf_with_source(c, &ty, p_);
+                        if !ty.is_empty() {
+                            let later: Vec<usize> = (0..ty.len()).filter(|i| f.targets[..*i].contains(&f.targets[*i])).collect();
+                            let i = if !later.is_empty() && c.rng.chance(3, 4) { *c.rng.pick(&later) } else { c.rng.below(ty.len()) };
+                            g.nodes.push(ty[i] + 1);
+                            g.sources[i] = g.nodes.len() - 1;
+                        }
+                        g
+                    }
                     _ => { let p_ = c.rng.chance(1, 2); gen_lf_with_source(c, &f.ty().1, p_) },
                 };
                 let (a, bb) = (f.clone(), g.clone());
